@@ -85,7 +85,11 @@ def _stages(case):
     npts, nprocs, iota = case["npts"], case["nprocs"], case["iota"]
     if not simrun.admissible(npts, nprocs) or nprocs[0] > npts[1]:
         return result(SKIP, what="process grid not admissible")
-    c = simrun.small_constants(npts, iota=iota, seed=case["seed"] % 1000, dt=1)
+    # a third of the runs: the rotational transform is a PROFILE supplied through the constants' iota(r) hook (sheared field), whatever
+    # the scalar iotaVal says -- every operator has to take it from the hook at the surface's own radius
+    profile = case["seed"] % 3 == 1
+    kw = {"iota_fn": (lambda r: 0.5 + 0.07 * np.asarray(r, dtype=float))} if profile else {}
+    c = simrun.small_constants(npts, iota=iota, seed=case["seed"] % 1000, dt=1, **kw)
     F, eta = _global_state(c, npts, case["seed"])
     from vlib import contracts
     contracts.install()
@@ -110,7 +114,7 @@ def _stages(case):
     ev = dict(wp.events)
     wit = {"case": case}
     split = ("r" if nprocs[0] > 1 else "") + ("z" if nprocs[1] > 1 else "")
-    ic = "iota0" if iota == 0 else "iota!=0"
+    ic = "iota(r)-profile" if profile else ("iota0" if iota == 0 else "iota!=0")
     for w, who in ((ws, "serial"), (wp, "parallel")):
         err = w.first_error()
         if err is not None:
